@@ -514,7 +514,8 @@ theorem stored_frames_tiled_full {α} [BEq α] [LawfulBEq α] (z : α) (Ms : Lis
   exact ⟨rows, frames, by rw [tiledSegTable_full_eq_sparse z Ms R C tr tc hr hc hR hC]; exact h, h2, h3, h4⟩
 
 
-/-- **`get_volume` on a tiled image reads the region `get_total_pixel_matrix` reads** (glue: the request is normalised once with
+/-- **`Image.get_volume` (and, by `bridge_seg_volume_forwarding`, `Segmentation.get_volume`) on a tiled image reads the region
+`get_total_pixel_matrix` reads** (glue: the request is normalised once with
 `outputs_as_indices=True`, the 0-based results are handed on with `as_indices=True` and normalised AGAIN — both calls regenerated,
 T4fv).  Whenever the first normalisation accepts, the pixel array is that of the direct read of the original request (so every
 theorem above applies to it); whenever it refuses, the direct read refuses as well.  Normalising twice neither shifts nor clamps:
@@ -534,6 +535,21 @@ theorem request_renormalised (rs re cs ce : Option Int) (R C : Int) (ai : Bool) 
     stdRowColIndices (some a) (some b) (some c) (some d) R C true false = .ok (a + 1, b + 1, c + 1, d + 1) ∧
     stdRowColIndices rs re cs ce R C ai false = .ok (a + 1, b + 1, c + 1, d + 1) :=
   stdRowCol_renormalise rs re cs ce R C ai a b c d h
+
+
+/-- **Pin (T4t): the frame query's cursor is closed when the `with` block is left**, also by an exception
+(`cursor = self._db_con.execute(full_query)`; `try: yield … finally: cursor.close()`, extracted from the source as a boolean).  This is
+the assumption under which the table state `Option ChanTable` of `reads_independent_of_history` is the WHOLE state of the connection:
+SQLite's table locks are not modelled, and while the cursor was left open (before `/repo` e921751) a read refused part way through
+its rows and a kept exception made every later read fail with `database table is locked` although the theorems held.  A trip-wire,
+not a consequence of the model. -/
+theorem region_query_cursor_is_closed : tiledRegionCursorClosedOnExit = true := by decide
+
+/-- `Segmentation.get_volume` has its own copy of the tiled branch (seg/sop.py); its two calls are regenerated as well (T4fw) and are
+the calls of `Image.get_volume` (T4fv), so `volume_region_is_matrix_region` speaks about both accessors. -/
+theorem bridge_seg_volume_forwarding (a b c d : Int) (ai : Bool) :
+    segVolumeStdCall ai = volumeStdCall ai ∧ segVolumeTpmCall a b c d = volumeTpmCall a b c d := by
+  constructor <;> rfl
 
 
 /-! ## Several segments at once, and histories of reads on one object
